@@ -3,6 +3,7 @@ import ParryModel.C02.Model
 import ParryModel.C03.Oracle
 import ParryModel.C03.Driver
 import ParryModel.C02.Exact
+import ParryModel.C02.Epa2
 /-!
 C02 protocol handlers (closed forms).  The closed-form `details::` functions and their exact world-frame judges
 (`judgeContact` = contact validity: unit normals, `normal2 = -normal1` in world space, `dist = (p2 - p1)·n1`,
@@ -213,6 +214,103 @@ def judgeExactContact (tag : String) (sep t pred : Rat) (over : V3 Rat → Optio
     else match over c.normal1 with
       | some ov => if c.dist < 0 && -c.dist > ov + t then s!"fail depth-exceeds-overlap-along-normal1 {tag} dist={c.dist.toF} overlap={ov.toF}" else "pass"
       | none => "pass"
+
+/-! ## follow-up 4: `epa2` — the 2-D EPA run on a given start simplex -/
+
+structure Epa2Args where
+  k1 : Nat
+  a1 : Float
+  b1 : Float
+  k2 : Nat
+  a2 : Float
+  b2 : Float
+  pos12 : Iso2 Float
+  pts : List (V2 Float × V2 Float)
+
+def pEpa2 : P Epa2Args := do
+  let k1 ← pnat; let a1 ← pf; let b1 ← pf; let k2 ← pnat; let a2 ← pf; let b2 ← pf; let m ← piso2; let n ← pnat
+  let rec go : Nat → P (List (V2 Float × V2 Float))
+    | 0 => pure []
+    | k + 1 => do let o1 ← pv2; let o2 ← pv2; let r ← go k; pure ((o1, o2) :: r)
+  let pts ← go n
+  pure ⟨k1, a1, b1, k2, a2, b2, m, pts⟩
+
+/-- `g1.local_support_point(dir)`: Cuboid (`copy_sign_to`) / Ball (`origin + normalize(dir) * r`) -/
+def epaSupp1 {K} [Num K] (k : Nat) (a b : K) (d : V2 K) : V2 K :=
+  if k = 0 then cuboidLocalSupport2 ⟨a, b⟩ d else V2.zero.add ((V2.normalize d).smul a)
+/-- `g2.support_point(pos12, dir)` -/
+def epaSupp2 {K} [Num K] (k : Nat) (a b : K) (m : Iso2 K) (d : V2 K) : V2 K :=
+  if k = 0 then (cuboidSupportMap2 ⟨a, b⟩).support m d else (ballSupportMap2 a).support m d
+
+/-- exact support value `max { x·n : x in the posed shape }` (ball: `|n|` through the rational square root, 2^-40) -/
+def epaH (k : Nat) (a b : Rat) (m : Iso2 Rat) (n : V2 Rat) : Rat :=
+  if k = 0 then m.t.dot n + a * rabs ((m.rot ⟨1, 0⟩).dot n) + b * rabs ((m.rot ⟨0, 1⟩).dot n)
+  else m.t.dot n + a * rsqrt n.normSq
+/-- how far `p` is outside the posed shape (0 inside), in the max norm of the local frame / radially -/
+def epaOutside (k : Nat) (a b : Rat) (m : Iso2 Rat) (p : V2 Rat) : Rat :=
+  let l := m.invAct p
+  if k = 0 then rmax 0 (rmax (rabs l.x - a) (rabs l.y - b)) else rmax 0 (rsqrt l.normSq - a)
+
+def epa2Oracle (A : Epa2Args) (o : List String) : String :=
+  let M := qiso2 A.pos12
+  if !unitC M then "skip non-unit-rotation" else
+  let I : Iso2 Rat := ⟨1, 0, ⟨0, 0⟩⟩
+  let (a1, b1, a2, b2) := (q A.a1, q A.b1, q A.a2, q A.b2)
+  let sh (k : Nat) (a b : Float) : XShape2 := .prim (if k = 0 then .cuboid ⟨a, b⟩ else .ball a)
+  let pair := s!"{if A.k1 = 0 then "cuboid" else "ball"}/{if A.k2 = 0 then "cuboid" else "ball"}"
+  let scale : Rat := 1 + a1 + b1 + a2 + b2 + vmag2 M.t
+  let pts := A.pts.map fun (o1, o2) => (q2 o1).sub (q2 o2)
+  -- the contract of EPA: the start simplex consists of points of the two shapes and contains the origin
+  let inShapes := A.pts.all fun (o1, o2) =>
+    epaOutside A.k1 a1 b1 I (q2 o1) ≤ (1 / 1000000000) * scale && epaOutside A.k2 a2 b2 M (q2 o2) ≤ (1 / 1000000000) * scale
+  if !inShapes then "skip simplex-not-from-the-shapes" else
+  let t9 : Rat := (1 / 1000000000) * scale * scale
+  let originIn : Bool := match pts with
+    | [p] => vmag2 p ≤ (1 / 1000000000) * scale
+    | [p, r] => rabs (p.perp r) ≤ t9 && p.dot r ≤ t9
+    | [p, r, s] =>
+      let (c1, c2, c3) := (p.perp r, r.perp s, s.perp p)
+      (c1 ≥ -t9 && c2 ≥ -t9 && c3 ≥ -t9) || (c1 ≤ t9 && c2 ≤ t9 && c3 ≤ t9)
+    | _ => false
+  if !originIn then "skip origin-not-in-the-simplex" else
+  match geom2 (sh A.k1 A.a1 A.b1) I, geom2 (sh A.k2 A.a2 A.b2) M with
+  | some G1, some G2 =>
+    match sepG2 G1 G2 with
+    | none => "skip no-exact-separation"
+    | some sep =>
+      let pen := -sep
+      match o with
+      | ["none"] =>
+        if pen > (1 / 1000000) * scale then s!"fail none-for-overlapping-shapes pair={pair} dim={A.pts.length - 1} exact-depth={(toF pen)}"
+        else "skip touching"
+      | ["degenerate-simplex"] => "skip degenerate-simplex"
+      | _ =>
+      withOut (do let p1 ← pfo; let p1y ← pfo; let p2 ← pfo; let p2y ← pfo; let nx ← pfo; let ny ← pfo
+                  pure ((⟨p1, p1y⟩ : V2 Float), (⟨p2, p2y⟩ : V2 Float), (⟨nx, ny⟩ : V2 Float))) o fun (p1, p2, n) =>
+        let (P1, P2, N) := (q2 p1, q2 p2, q2 n)
+        if A.pts.length = 1 then
+          -- vertex/vertex start: only a direction is produced; it must be a unit vector
+          if !close N.normSq 1 1000 then s!"fail normal-not-unit pair={pair} dim=0" else "pass"
+        else if pen ≤ (1 / 1000000) * scale then "skip touching" else
+        let wt : Rat := (1 / 1000000) * scale
+        let d := (P1.sub P2).dot N
+        let H := epaH A.k1 a1 b1 I N + epaH A.k2 a2 b2 M N.neg
+        let rel : Rat := if A.k1 = 0 && A.k2 = 0 then 0 else (5 / 1000)
+        if !close N.normSq 1 1000 then s!"fail normal-not-unit pair={pair} n2={toF N.normSq}"
+        else if epaOutside A.k1 a1 b1 I P1 > wt then s!"fail witness1-not-on-its-shape pair={pair} dim={A.pts.length - 1} off={toF (epaOutside A.k1 a1 b1 I P1)}"
+        else if epaOutside A.k2 a2 b2 M P2 > wt then s!"fail witness2-not-on-its-shape pair={pair} dim={A.pts.length - 1} off={toF (epaOutside A.k2 a2 b2 M P2)}"
+        else if d > H + wt then s!"fail depth-exceeds-the-overlap-along-the-normal pair={pair} depth={toF d} overlap={toF H}"
+        else if rabs (d - pen) > wt + rel * pen then
+          s!"fail depth-is-not-the-minimum-translation pair={pair} dim={A.pts.length - 1} depth={toF d} exact={toF pen} overlap-along-normal={toF H}"
+        else "pass"
+  | _, _ => "skip no-exact-geometry"
+
+def fEpa2 : Epa2Result Float → String
+  | .panic => "panic"
+  | .fuel => "fuel"
+  | .none => "none"
+  | .some p1 p2 n => s!"{fv2 p1} {fv2 p2} {fv2 n}"
+
 
 def handlerCore (fn : String) : Option Handler :=
   match fn with
@@ -474,6 +572,14 @@ def handlerCore (fn : String) : Option Handler :=
                 else s!"fail depth-is-not-the-minimum-translation dist={d} exact={sep.toF}"
               | none => "skip no-exact-separation")
             | _, _ => "skip no-exact-geometry"
+        | none => "skip bad-args" }
+  | "epa2" => some {
+      model := fun a => run (do
+        let A ← pEpa2
+        let pts := A.pts.map fun (o1, o2) => CSOPoint2.new o1 o2
+        pure (fEpa2 (epa2ClosestPoints (epaSupp1 A.k1 A.a1 A.b1) (epaSupp2 A.k2 A.a2 A.b2 A.pos12) 128 pts))) a
+      oracle := fun a o => match run pEpa2 a with
+        | some A => epa2Oracle A o
         | none => "skip bad-args" }
   | _ => none
 
